@@ -7,6 +7,10 @@ Bounded exhaustive enumeration on the real engine, differential oracle STRICT vs
       with / translate tags of the extra environment;
   Td/TXd/Id  tag sequences of <= k-1 tags with literal text before / between / after the tags in every
       combination (e.g. an unclosed block followed by text that runs to the last character);
+  K   error-class corpus: snippets raising every LiquidError subclass reachable from a template (parse time,
+      partial-load time, render time; default / extra / small-limits / StrictUndefined environments), alone,
+      in ordered pairs, inside block wrappers and through render/include;
+  (T, TX, I, Td, TXd, Id, K are parsed and rendered a second time on the same environments.)
   I   the T sources of <= k-1 tags through the module-level ``liquid.Template(source, tolerance=...)``;
   E   every expression head x every sequence of <= k expression tokens;
   G   the generated well-formed programs;   Gm  every single-deviation mutant of them.
@@ -36,6 +40,7 @@ X_FLAGS = {
 }
 MODES = ("strict", "warn", "lax")
 DATA = dict(G.DATA_SETS)
+DATA["K"] = CG.K_DATA
 FAMILY_DATA = {
     "M": ("D0", "D1", "D2"),
     "T": ("D0", "D1", "D2"),
@@ -44,6 +49,7 @@ FAMILY_DATA = {
     "Td": ("D0", "D1", "D2"),
     "TXd": ("D0", "D2"),
     "Id": ("D0", "D2"),
+    "K": ("K",),
     "E": ("D0", "D1", "D2", "D4"),
     "G": ("D0", "D1", "D2", "D3", "D4", "D5"),
     "Gm": ("D0", "D1", "D2", "D3", "D4", "D5"),  # thorough; quick uses GM_QUICK_DATA
@@ -51,6 +57,7 @@ FAMILY_DATA = {
 }
 
 GM_QUICK_DATA = ("D0", "D2", "D4")
+REPEAT_FAMILIES = {"T", "TX", "I", "Td", "TXd", "Id", "K"}  # parsed and rendered a second time on the same envs
 
 _ENVS: dict[tuple[str, str], Any] = {}
 
@@ -75,6 +82,10 @@ def env_for(kind: str, mode: str) -> Any:
     if env is None:
         if kind == "I":
             env = ImplicitEnv(mode)
+        elif kind == "L":
+            env = U.make_env(limits=CG.K_LIMITS, templates=CG.PARTIALS, tolerance=U.MODES[mode])
+        elif kind == "S":
+            env = U.make_env(templates=CG.PARTIALS, tolerance=U.MODES[mode], undefined=liquid.StrictUndefined)
         elif kind == "D":
             env = U.make_env(templates=CG.PARTIALS, tolerance=U.MODES[mode])
         else:
@@ -114,7 +125,13 @@ class C03(Check):
         "default Undefined (undefined variables are not errors) and default resource limits: errors of class "
         "ResourceLimitError / UndefinedError are not tolerance matters per docs/environment.md (syntax and "
         "render-time type errors) and are excluded and counted (none occurs inside the bound)",
-        "non-Liquid exceptions belong to C02: counted, not flagged",
+        "non-Liquid exceptions belong to C02 (counted, not flagged) when strict mode raises one too or when lax and "
+        "warn raise the same one; a non-Liquid exception in exactly one of warn / lax is a C03 violation "
+        "(warn must behave the same as lax)",
+        "error-class corpus K reaches every LiquidError subclass the engine raises while parsing, loading partials or "
+        "rendering (counters K_strict_raises:*); not reachable from a template and therefore not in the corpus: "
+        "LiquidEnvironmentError, TemplateTraversalError (static analysis), TranslationError/TranslationValueError/"
+        "TranslationKeyError (no raise site), FilterItemTypeError (always caught by sequence_filter)",
         "configurations: D (default Environment), X (extra=True, not/parentheses/ternary/shorthand-index/"
         "keyword-assignment flags on) and I (implicit environment of liquid.Template), each in the three modes; "
         "render data limited to mc.gen.programs.DATA_SETS",
@@ -133,6 +150,9 @@ class C03(Check):
             "implicit_env_tag_sequence_k": 2 if q else 3,
             "text_decorated_tag_sequence_k": {"Td": 2 if q else 3, "TXd": 2 if q else 3, "Id": 2},
             "tag_alphabet_extra_env": len(CG.TAGS_X_QUICK if q else CG.TAGS_X),
+            "error_class_corpus_K": "each env kind (D, X, L=small limits, S=StrictUndefined): snippets x wrappers, "
+                                    "singles + ordered pairs + via render/include of a partial; 2 rounds",
+            "repeat_round_families": sorted(REPEAT_FAMILIES),
             "expr_k": 2 if q else 3,
             "expr_alphabet": len(CG.ETOKENS_QUICK if q else CG.ETOKENS),
             "expr_heads": len(CG.HEADS),
@@ -173,6 +193,8 @@ class C03(Check):
             sh.append(("TXd", "X", kd, i))
         for i in range(len(tags)):
             sh.append(("Id", "I", 2, i))
+        for ek in CG.K_SNIPPETS:
+            sh.append(("K", ek))
         for i in range(len(CG.HEADS)):
             if q:
                 sh.append(("E", 2, i, None))
@@ -210,6 +232,10 @@ class C03(Check):
                 tags = CG.TAGS_QUICK if tier == "quick" else CG.TAGS
             for src in CG.decorated_sequences(k, tags, first):
                 self.run_source(res, kind, ek, src)
+        elif kind == "K":
+            for src in CG.k_sources(shard[1]):
+                self.run_source(res, "K", shard[1], src)
+            self.class_coverage(res, shard[1])
         elif kind == "TX":
             _, k, first = shard
             tags = CG.TAGS_X_QUICK if tier == "quick" else CG.TAGS_X
@@ -270,14 +296,32 @@ class C03(Check):
                         obs[m] = O.Obs(ph, O.SKIPPED, None)
                 del wl[:]
                 self.judge_case(res, family, ek, src, lab, obs)
+            if family in REPEAT_FAMILIES:
+                # the same environments meet the same source again: every occurrence of a suppressed error
+                # must be reported ("each suppressed error is reported as a warning"), not only the first
+                parsed2 = {"strict": parsed["strict"]}
+                for m in ("warn", "lax"):
+                    parsed2[m] = O.observe_parse(envs[m], src, wl)
+                lab = labels[0]
+                obs = {}
+                for m in MODES:
+                    ph, tpl = parsed2[m]
+                    if ph.status == "ok":
+                        rph, out = O.observe_render(tpl, DATA[lab], wl)
+                        obs[m] = O.Obs(ph, rph, out if rph.status == "ok" else None)
+                    else:
+                        obs[m] = O.Obs(ph, O.SKIPPED, None)
+                del wl[:]
+                self.judge_case(res, family, ek, src, lab, obs, round_=2)
 
-    def judge_case(self, res: Result, family: str, ek: str, src: str, lab: str, obs: dict[str, O.Obs]) -> None:
+    def judge_case(self, res: Result, family: str, ek: str, src: str, lab: str, obs: dict[str, O.Obs],
+                   round_: int = 1) -> None:
         s, w, l = obs["strict"], obs["warn"], obs["lax"]
         viols = O.judge(s, w, l, res.count)
         markup = "{%" in src or "{{" in src
         nontrivial = None
         if l.sinks or not s.clean or markup:
-            nontrivial = [ek, src, lab]
+            nontrivial = [ek, src, lab] if round_ == 1 else [ek, src, lab, round_]
         case = {"family": family, "env": ek, "source": src, "data": lab}
         res.case(
             nontrivial=nontrivial,
@@ -295,14 +339,45 @@ class C03(Check):
             res.count("strict_clean_cases_with_markup")
         for sig, what in viols:
             sig = dict(sig, family="G" if family.startswith("G") else family)
-            res.violation(sig, f"{src!r} data={lab} env={ek}: {what}", case)
+            shown = repr(src) if len(src) < 300 else repr(src[:120]) + f"...<{len(src)} chars>"
+            res.violation(sig, f"{shown} data={lab} env={ek}{' (2nd parse+render on the same env)' if round_ == 2 else ''}: {what}", case)
+        if family == "K":
+            for kname in set(l.parse.sink_kinds + l.render.sink_kinds):
+                res.count("K_suppressed_in_lax:" + kname)
 
     # ------------------------------------------------------------------
     def replay(self, case: Any) -> list[dict[str, Any]]:
         ready()
         res = Result()
-        self.run_source(res, case["family"], case["env"], case["source"], labels=(case["data"],))
-        return res.violations
+        fam = case["family"]
+        labels = list(GM_QUICK_DATA if fam == "Gm" else FAMILY_DATA.get(fam, ()))
+        if case["data"] in labels:  # same within-source history as the exploration (earlier data sets first)
+            labels = labels[: labels.index(case["data"]) + 1]
+        else:
+            labels = [case["data"]]
+        self.run_source(res, fam, case["env"], case["source"], labels=tuple(labels))
+        return [v for v in res.violations if v["case"]["data"] == case["data"]]
+
+    def class_coverage(self, res: Result, ek: str) -> None:
+        """Which LiquidError subclasses (by reflection) does strict mode raise over the K singles of this env?"""
+        from liquid.exceptions import LiquidError
+
+        env = env_for(ek, "strict")
+        for src in CG.K_SNIPPETS[ek] + CG.K_SOLO[ek]:
+            try:
+                env.from_string(src).render(**CG.K_DATA)
+            except LiquidError as e:
+                res.count("K_strict_raises:" + type(e).__name__)
+            except Exception:  # noqa: BLE001  C02's business
+                res.count("non_liquid_exception_c02_business")
+        if ek == "D":
+            def subclasses(c: type) -> Any:
+                for sc in c.__subclasses__():
+                    yield sc
+                    yield from subclasses(sc)
+            res.notes.append("LiquidError subclasses defined by the library: "
+                             + ", ".join(sorted({c.__name__ for c in subclasses(LiquidError)
+                                                 if c.__module__.startswith("liquid")})))
 
 
 def malformed_sources(k: int, prefix: tuple[int, ...]) -> Iterator[str]:
